@@ -229,6 +229,10 @@ pub struct Picture {
     /// the optional `type:` line is only sent with the chunk at offset 0
     #[serde(default)]
     pub mime_only_first_chunk: bool,
+    /// the embedded picture disappears while it is being read (the file was retagged):
+    /// `readpicture` at an offset > 0 and >= this answers with a bare `OK`
+    #[serde(default)]
+    pub embedded_vanishes_at: Option<u64>,
 }
 
 #[derive(Clone, Debug, PartialEq, Eq, Serialize, Deserialize)]
